@@ -185,3 +185,19 @@ func (a *analysis) summary() string {
 }
 
 func clock0() int64 { return vtime.Get() }
+
+// resSummary renders the statuses (or labels) of a scenario's requests; a request that never returned shows as "-".
+func resSummary(res []*env.Result, label bool) string {
+	o := ""
+	for _, r := range res {
+		switch {
+		case r == nil:
+			o += "- "
+		case label:
+			o += r.XStatus + " "
+		default:
+			o += fmt.Sprint(r.Status, " ")
+		}
+	}
+	return o
+}
